@@ -200,6 +200,25 @@ def r1_loop(ctx, rule, b, N):
             else:
                 why = 'the push is not inside the loop / the index does not come from position() over to_drop'
     ctx.check(good, rule, P + '|top-up', (pushes[0].where() if pushes else b.where()), 'while short of n: to_retain.push(to_drop.remove(first sub-group holding data))', 'top-up: ' + why)
+    # n is the number of PATHS / roots the user asked to keep untouched: where fewer than n sub-groups hold data, the loop above ends early, and the
+    # retained set must still be filled up to n with what there is (sub-groups of links: keeping a link is never unsafe)
+    plain = None
+    for cmp2 in comparisons(b):
+        if not any(cmp2.bb in b.reachable(x) for x in b.succs(cmp2.bb)):
+            continue
+        for cnt_side, n_side in ((cmp2.a, cmp2.b), (cmp2.b, cmp2.a)):
+            dc = direct_def(b, cnt_side)
+            if dc[0] == 'call' and dc[1].matches(r'Vec<.*>::len$|Vec::<T, A>::len$') and receiver_root(dc[1].args[0]) == 'to_retain' and N.dest[0] in backslice(b, [n_side]).locals:
+                br2 = branch_of(b, cmp2)
+                for pu in pushes:
+                    dr = direct_def(b, pu.args[1])
+                    if dr[0] == 'call' and dr[1].matches(r'Vec<.*>::remove$|Vec::<T, A>::remove$') and receiver_root(dr[1].args[0]) == 'to_drop' and cmp2.bb in b.reachable(pu.bb) and \
+                            br2 is not None and (b.dominates(br2[1], pu.bb) or b.dominates(br2[2], pu.bb)):
+                        plain = cmp2
+    ctx.check(plain is not None, rule, P + '|n-paths-stay', (b.where(plain.line) if plain else cnt.where()), 'after the sub-groups that hold data, the retained set is filled up to n sub-groups with what is left (links)',
+              'only sub-groups that hold a real file are ever moved from the dropped to the retained set: when a group has fewer than n of them, the loop gives up and every sub-group of symbolic links '
+              'stays in the dropped set - `group -S -H --rf-over 3 a | remove` (a/f and three links to it; the header says 1 redundant file) removes all three links instead of one, although -n / '
+              '--rf-over asks to keep 3 replicas untouched')
     res = aggregates(b, 'dedupe::PartitionedFileGroup')
     if res:
         s_ = res[0][1]
